@@ -43,3 +43,25 @@ def split_canonical(path):
     k, _, v = seg.partition('=')
     tags.append((k, v))
   return head, tags
+
+
+def is_openmetrics_shaped(path):
+  return path[-2:] == '"}' and '{' in path
+
+
+def ref_parse_carbon(path):
+  """Reference reading of a carbon-syntax path: (metric, [(k, v), ...]) or None when it violates the tag rules.
+  The first segment is the metric; every other segment must be key=value with a valid key and value."""
+  segs = path.split(';')
+  metric = segs[0]
+  if not metric or not metric.lstrip('~'):
+    return None
+  pairs = []
+  for seg in segs[1:]:
+    if '=' not in seg:
+      return None
+    k, v = seg.split('=', 1)
+    if not valid_tag(k, v):
+      return None
+    pairs.append((k, v))
+  return metric, pairs
